@@ -4,7 +4,7 @@ import json, os, re, shutil, subprocess, sys
 from pathlib import Path
 
 VERIF = Path(__file__).resolve().parents[1]
-out = VERIF / "seeded"
+out = VERIF / os.environ.get("SEED_OUT", "seeded")
 out.mkdir(exist_ok=True)
 for sd in sorted(Path(os.environ.get("SEED_SRC", "/tmp/seed2")).glob("C*/SEED/C*-*")):
     dst = out / sd.name
